@@ -40,7 +40,7 @@ def run(ctx, R):
     for k in [k for k in R.obs if k[0] == 'EMIT-REL-TIMING']:
         del R.obs[k]
     cls = M.cls('streamz.sources', 'FromKafkaBatched')
-    R.run(lifecycle.check_stop_check, ctx, R, [(cls, cls.methods['poll_kafka'])])
+    R.run(lifecycle.check_stop_check, ctx, R, [(cls, f) for f in cls.methods.values()])
     R.run(lifecycle.check_single_flight, ctx, R, [cls])
     R.run(flow.check_propagate, ctx, R, modules=('streamz.sources',), note_modules=())
     for k in [k for k in R.obs if k[0] == 'PROPAGATE' and 'FromKafkaBatched' not in k[1]]:
